@@ -1,7 +1,7 @@
 (* Proofs/OutputBytes.v — the byte level of the JSON / SARIF renderings (C06): what click.echo(json.dumps(doc, indent=K))
    writes is pure ASCII (hence well-formed UTF-8 under every stdout encoding), and the specification's reader of the JSON
    grammar reads the document back from it, for every JSON value (every byte string as a str, every integer). *)
-From TL Require Import Lib.Base Model.OutputTypes Gen.OutputGen Model.Output Model.OutputBytes Proofs.OutputStr Proofs.OutputSan.
+From TL Require Import Lib.Base Model.OutputTypes Gen.OutputGen Model.Output Model.OutputBytes Proofs.OutputStr.
 From Coq Require Import ZArith Lia.
 Local Open Scope string_scope.
 
@@ -217,17 +217,14 @@ Qed.
 Theorem json_quote_ascii s : ascii_bytes (json_quote s) = true.
 Proof. unfold json_quote. cbn [ascii_bytes dq]. cbn. now rewrite ascii_bytes_app, esc_go_ascii. Qed.
 
-Lemma bit7_is_ascii a : bit7 a = false -> is_ascii a = true.
-Proof. destruct a as [b0 b1 b2 b3 b4 b5 b6 b7]. cbn [bit7]. intros ->. destruct b0, b1, b2, b3, b4, b5, b6; reflexivity. Qed.
-
-Lemma ascii_bytes_only s : ascii_bytes s = true -> ascii_only s = true.
-Proof.
-  induction s as [|a s IH]; [reflexivity|]. destruct a as [b0 b1 b2 b3 b4 b5 b6 b7]. cbn [ascii_bytes ascii_only]. intros H.
-  apply andb_true_iff in H as [H1 H2]. rewrite IH by exact H2. rewrite bit7_is_ascii; [reflexivity|]. cbn [bit7]. now destruct b7.
-Qed.
-
+(* ASCII bytes are well-formed UTF-8 (Model.Output.utf8_valid, the recogniser compared with CPython's strict decoder) *)
 Theorem ascii_bytes_utf8 s : ascii_bytes s = true -> utf8_valid s = true.
-Proof. intros H. now apply ascii_valid, ascii_bytes_only. Qed.
+Proof.
+  unfold utf8_valid. induction s as [|a s IH]; [reflexivity|]. destruct a as [b0 b1 b2 b3 b4 b5 b6 b7]. cbn [ascii_bytes]. intros H.
+  apply andb_true_iff in H as [H1 H2]. destruct b7; [discriminate H1|]. cbn [utf8_valid_go].
+  replace (nat_of_ascii (Ascii b0 b1 b2 b3 b4 b5 b6 false) <? 128)%nat with true by (destruct b0, b1, b2, b3, b4, b5, b6; reflexivity).
+  now apply IH.
+Qed.
 
 (* ================================================================== documents *)
 Fixpoint json_ind' (P : json -> Prop) (Hnull : P JNull) (Hbool : forall b, P (JBool b)) (Hnum : forall z, P (JNum z))
